@@ -36,7 +36,7 @@ enum Res {
     Failed,
 }
 
-fn apply(w: &mut dyn std::io::Write, op: &Op) -> Res {
+fn apply<W: std::io::Write + ?Sized>(w: &mut W, op: &Op) -> Res {
     match op.kind {
         0 => match w.write(&op.a[..op.la]) {
             Ok(n) => Res::Count(n),
@@ -125,33 +125,56 @@ fn mk_always<S: anstream::stream::RawStream>(s: S) -> AutoStream<S> {
     AutoStream::new(s, ColorChoice::Always)
 }
 
+/// In-memory raw stream of a concrete type (hook: `anstream::stream::verif::Sealed`).  The
+/// Never queries use it instead of `&mut dyn Write`: CBMC resolves a `dyn Write` call inside
+/// the stream against every `Write` implementation in the program, which made one symbolic
+/// byte through `AutoStream<&mut dyn Write>` cost more than 20 minutes and 14 GB.  The sink
+/// holds 4 bytes so that the harness-wide unwind bound can be 5: the bound applies to the
+/// strip loops too, and at 10 they alone exhaust 14 GB.
+struct Raw(Sink<4>);
+
+impl std::io::Write for Raw {
+    fn write(&mut self, buf: &[u8]) -> std::io::Result<usize> {
+        self.0.push_bytes(buf);
+        Ok(buf.len())
+    }
+    fn flush(&mut self) -> std::io::Result<()> {
+        Ok(())
+    }
+}
+impl anstream::stream::verif::Sealed for Raw {}
+impl anstream::stream::IsTerminal for Raw {
+    fn is_terminal(&self) -> bool {
+        false
+    }
+}
+impl anstream::stream::RawStream for Raw {}
+impl anstream::stream::AsLockedWrite for Raw {
+    type Write<'w> = &'w mut Self;
+    fn as_locked_write(&mut self) -> Self::Write<'_> {
+        self
+    }
+}
+
 macro_rules! never_case {
-    ($name:ident, $ctor:path, $kind:expr) => {
-        /// Choice Never: one operation of a concrete kind with a symbolic payload gives the same
-        /// return value and the same bytes as a strip stream fed the same operation.
+    ($name:ident, $ctor:path, $kind:expr, $la:expr) => {
+        /// Choice Never: one operation of a concrete kind and payload length with symbolic
+        /// payload bytes gives the same return value and the same bytes as a strip stream
+        /// fed the same operation; taking the inner writer back returns all bytes delivered.
         #[kani::proof]
-        #[kani::unwind(10)]
+        #[kani::unwind(5)]
         fn $name() {
             let mut op1 = any_op();
             op1.kind = $kind;
-            if $kind == 0 || $kind == 2 {
-                // write / write_vectored: the short-write machinery is the most expensive code
-                // in the repository for the solver; one byte is what fits the quick budget
-                kani::assume(op1.la <= 1);
-            }
-            let mut got: Sink<8> = Sink::new();
-            let mut want: Sink<8> = Sink::new();
-            {
-                let wg: &mut (dyn std::io::Write + 'static) = &mut got;
-                let mut auto = $ctor(wg);
-                assert!(auto.current_choice() == ColorChoice::Never, "reported mode is the one in force");
-                let ww: &mut (dyn std::io::Write + 'static) = &mut want;
-                let mut strip = StripStream::new(ww);
-                let r1 = apply(&mut auto, &op1);
-                let s1 = apply(&mut strip, &op1);
-                assert!(r1 == s1, "same result as the strip stream");
-                let _back: &mut (dyn std::io::Write + 'static) = auto.into_inner();
-            }
+            op1.la = $la;
+            let mut auto = $ctor(Raw(Sink::new()));
+            assert!(auto.current_choice() == ColorChoice::Never, "reported mode is the one in force");
+            let mut strip = StripStream::new(Raw(Sink::new()));
+            let r1 = apply(&mut auto, &op1);
+            let s1 = apply(&mut strip, &op1);
+            assert!(r1 == s1, "same result as the strip stream");
+            let got = auto.into_inner().0;
+            let want = strip.into_inner().0;
             assert!(sinks_equal(&got, &want), "inner writer received exactly what the strip stream delivers");
             kani::cover!(want.len >= 1 || $kind == 4);
             kani::cover!(want.len == 0);
@@ -159,33 +182,101 @@ macro_rules! never_case {
     };
 }
 
-never_case!(never_write, AutoStream::never, 0);
-never_case!(never_write_all, AutoStream::never, 1);
-never_case!(never_write_vectored, AutoStream::never, 2);
-never_case!(never_write_fmt, AutoStream::never, 3);
-never_case!(never_flush, AutoStream::never, 4);
-never_case!(new_never_write_all, mk_never, 1);
-never_case!(new_never_write_fmt, mk_never, 3);
+never_case!(never_write_1, AutoStream::never, 0, 1);
+never_case!(never_write_2, AutoStream::never, 0, 2);
+never_case!(never_write_all_1, AutoStream::never, 1, 1);
+never_case!(never_write_all_2, AutoStream::never, 1, 2);
+never_case!(never_write_vectored_0, AutoStream::never, 2, 0);
+never_case!(never_write_vectored_1, AutoStream::never, 2, 1);
+never_case!(never_write_fmt, AutoStream::never, 3, 0);
+never_case!(never_flush, AutoStream::never, 4, 0);
+never_case!(new_never_write_all_1, mk_never, 1, 1);
+never_case!(new_never_write_all_2, mk_never, 1, 2);
+never_case!(new_never_write_fmt, mk_never, 3, 0);
+
+macro_rules! never_vs_spec {
+    ($name:ident, $ctor:path, $kind:expr, $la:expr) => {
+        /// Choice Never, the expensive operation kinds (write / write_vectored / write_fmt):
+        /// one stream only, compared with the strip specification instead of a second
+        /// stream (C01/C03/C06 tie the strip stream to that specification).
+        #[kani::proof]
+        #[kani::unwind(5)]
+        fn $name() {
+            let mut op1 = any_op();
+            op1.kind = $kind;
+            op1.la = $la;
+            // the bytes this operation presents to the stream
+            let (bytes, n): ([u8; 2], usize) = match $kind {
+                3 => ([op1.a[0] & 0x7F, op1.b[0] & 0x7F], 2),
+                2 if $la == 0 => ([op1.b[0], 0], 1),
+                _ => (op1.a, $la),
+            };
+            let (keep, ctl) = crate::strip_common::spec(&bytes, n);
+            #[cfg(feature = "kf_c01_ctl_in_broken_utf8")]
+            kani::assume(!ctl);
+            let _ = ctl;
+            let mut auto = $ctor(Raw(Sink::new()));
+            assert!(auto.current_choice() == ColorChoice::Never, "reported mode is the one in force");
+            let r1 = apply(&mut auto, &op1);
+            let want = if $kind == 3 { Res::Unit } else { Res::Count(n) };
+            assert!(r1 == want, "the whole buffer is consumed when the inner writer accepts everything");
+            let got = auto.into_inner().0;
+            let mut k = 0;
+            let mut i = 0;
+            while i < 2 {
+                if i < n && keep[i] {
+                    assert!(k < got.len && got.buf[k] == bytes[i], "visible text is delivered, in order");
+                    k += 1;
+                }
+                i += 1;
+            }
+            assert!(got.len == k, "nothing but the visible text is delivered");
+            kani::cover!(k == 0);
+            kani::cover!(k == n);
+        }
+    };
+}
+
+never_vs_spec!(never_spec_write_1, AutoStream::never, 0, 1);
+never_vs_spec!(never_spec_write_2, AutoStream::never, 0, 2);
+never_vs_spec!(never_spec_write_vectored_0, AutoStream::never, 2, 0);
+never_vs_spec!(never_spec_write_vectored_1, AutoStream::never, 2, 1);
+never_vs_spec!(never_spec_write_fmt, AutoStream::never, 3, 0);
+never_vs_spec!(new_never_spec_write_1, mk_never, 0, 1);
 
 /// The strip state is carried from one call to the next exactly as in a strip stream: a
 /// first call that ends inside an escape sequence, then any byte.
 #[kani::proof]
-#[kani::unwind(10)]
+#[kani::unwind(5)]
 fn never_state_carried_across_calls() {
     let tail: [u8; 1] = kani::any();
-    let mut got: Sink<8> = Sink::new();
-    let mut want: Sink<8> = Sink::new();
+    let mut auto = AutoStream::never(Raw(Sink::new()));
+    let mut strip = StripStream::new(Raw(Sink::new()));
+    assert!(auto.write_all(b"a\x1b[").is_ok() && strip.write_all(b"a\x1b[").is_ok());
+    assert!(auto.write_all(&tail).is_ok() && strip.write_all(&tail).is_ok());
+    let got = auto.into_inner().0;
+    let want = strip.into_inner().0;
+    assert!(sinks_equal(&got, &want), "inner writer received exactly what the strip stream delivers");
+    assert!(want.len >= 1 && want.buf[0] == b'a', "the text before the sequence");
+    kani::cover!(tail[0] == b'm' && want.len == 1);
+}
+
+/// The same through a borrowed `dyn Write` (the boxed / dynamic writers of the property's
+/// quantifier): one byte, either text or ESC.
+#[kani::proof]
+#[kani::unwind(5)]
+fn never_dyn_writer() {
+    let b: [u8; 1] = kani::any();
+    kani::assume(b[0] == 0x1b || b[0] == b'a');
+    let mut got: Sink<4> = Sink::new();
     {
         let wg: &mut (dyn std::io::Write + 'static) = &mut got;
         let mut auto = AutoStream::never(wg);
-        let ww: &mut (dyn std::io::Write + 'static) = &mut want;
-        let mut strip = StripStream::new(ww);
-        assert!(auto.write_all(b"a\x1b[").is_ok() && strip.write_all(b"a\x1b[").is_ok());
-        assert!(auto.write_all(&tail).is_ok() && strip.write_all(&tail).is_ok());
+        assert!(auto.current_choice() == ColorChoice::Never);
+        assert!(auto.write_all(&b).is_ok());
+        let _back: &mut (dyn std::io::Write + 'static) = auto.into_inner();
     }
-    assert!(sinks_equal(&got, &want), "inner writer received exactly what the strip stream delivers");
-    assert!(want.len == 1, "the text before the sequence, nothing of the sequence");
-    kani::cover!(tail[0] == b'm');
+    assert!(got.len == (b[0] == b'a') as usize, "stripped");
 }
 
 macro_rules! passthrough_case {
@@ -225,7 +316,7 @@ passthrough_case!(new_always_two_ops, mk_always);
 
 /// Owned in-memory writer: taking the inner writer back returns all bytes delivered so far.
 #[kani::proof]
-#[kani::unwind(10)]
+#[kani::unwind(5)]
 fn vec_into_inner() {
     let a: [u8; 1] = kani::any();
     let never: bool = kani::any();
